@@ -6,7 +6,8 @@ On success copies it to /verif/seeded/<seeded-id>/ with meta.json extended by wh
 import json, os, shutil, subprocess, sys
 cid, mn = sys.argv[1], sys.argv[2]
 keep = sys.argv[4] if len(sys.argv) > 4 and sys.argv[3] == "--keep-as" else "%s-%s" % (cid, mn)
-wt, out = "/tmp/kv-seed/%s" % cid, "/tmp/kv-seed/%s-out/%s" % (cid, mn)
+SD = os.environ.get("KV_SEED_DIR", "/tmp/kv-seed")
+wt, out = "%s/%s" % (SD, cid), "%s/%s-out/%s" % (SD, cid, mn)
 env = dict(os.environ, GOFLAGS="-mod=mod", GOPROXY="off", GOSUMDB="off", GOTOOLCHAIN="local")
 meta = json.load(open(os.path.join(out, "meta.json")))
 def run(cmd, cwd, timeout=900):
